@@ -17,6 +17,7 @@ pub fn plan() -> Plan {
         directed: vec![],
         quick_histories: 400,
         thorough_histories: 60_000,
+        s5: Some((2, 30, s4common::s5_default(false, 0))),
     }
 }
 
